@@ -7,7 +7,7 @@ from props import util
 from props.C03 import duals_to_y
 
 THEOREMS = ['C14_value_is_sum_of_interval_optima', 'C14_feasible_iff_every_interval', 'C14_steps_refer_to_original_grid', 'C14_split_le_unsplit']
-CFG = {'p_coarse': 0.0, 'p_periodic': 0.0, 'T': (4, 12), 'n_assets': (1, 4), 'nodes': (1, 3), 'p_window': 0.4, 'p_market': 0.95, 'p_wacc': 0.6,
+CFG = {'p_no_simult': 0.2, 'p_coarse': 0.0, 'p_periodic': 0.0, 'T': (4, 12), 'n_assets': (1, 4), 'nodes': (1, 3), 'p_window': 0.4, 'p_market': 0.95, 'p_wacc': 0.6,
        'freqs': ['h', 'h', '30min'], 'units': ['h', 'd', 'd', 'min'], 'p_unaligned_end': 0.2, 'tzs': [None, None, 'CET'],
        'kinds': {'SimpleContract': 3, 'Contract': 1, 'Transport': 3, 'Storage': 2, 'MultiCommodityContract': 2, 'OrderBook': 1, 'ExtendedTransport': 1}}
 SPECIAL = ('OrderBook', 'ScaledAsset', 'StructuredAsset')
@@ -114,6 +114,8 @@ def run(ctx):
                 bad['value is not the sum of the interval optima'] = [s['value'], iv]
         elif s.get('solve') == 'crash':
             bad['split optimisation crashed'] = s.get('solve_error')
+        if s.get('solve') == 'optimal' and s.get('out') is None:
+            bad['extract_output fails on the split result'] = s.get('out_error')
         # ---- against the unsplit problem
         coupled_hard = any(a['kind'] == 'Storage' and a.get('start_level', 0.0) != a.get('end_level', 0.0) for a in sp['assets'])
         coupled = any(a['kind'] == 'Storage' or a.get('max_take') or a.get('min_take') for a in sp['assets'])
